@@ -89,14 +89,24 @@ CHECKS = {
         design="6/C03"),
     "C04": dict(
         category="model_checking",
-        technique="same machine as C03; forwarding fields of each binding record (lambda parameters, callee, call "
+        technique="(static) same machine as C03: forwarding fields of each binding record (lambda parameters, callee, call "
                   "arguments, keyword names/defaults, return presence, static vs instance, property writability, "
-                  "enumerator values, base class) compared by TLC",
+                  "enumerator values, base class) compared by TLC, plus Iface!CppSpelling of every type; (executed) TLC "
+                  "computes a Python session plan per module with spec/PyCall.tla, the real generated unit is compiled "
+                  "against a rendered instrumented library, imported and driven through the plan, the library's call log "
+                  "and the results are compared step by step",
         text="Static half: every registration's forwarding fields must equal the record the specification derives "
-             "from the declaration (PyBind!DiffField names the first differing field).",
-        note="The executed half (compiled module driven through PySession behaviours) is described in DESIGN.md and "
-             "added when built; until then forwarding is judged on the generated text only.",
-        design="6/C04"),
+             "from the declaration (PyBind!DiffField names the first differing field); every type's C++ spelling must "
+             "equal the spelling of its structure.  Executed half ('call' profile of IfaceSim: basic / string / "
+             "declared-class parameters): each constructor, method, static method and function binding is called "
+             "positionally, with reversed keywords and with trailing defaults omitted; the library must log the declared "
+             "entity (class, member, explicit template arguments) with the values in declared order and the declared "
+             "defaults, self first for instance calls; void gives None, non-void the declared kind; properties read "
+             "back, const ones refuse assignment; enumerators have their declared positions; derived classes are "
+             "subclasses of their base.",
+        note="Executed half: top namespace [''] and empty ignore list only; operators and dunder methods are judged "
+             "statically only; modules binding one C++ type twice are not judged (pybind11 refuses the import).",
+        design="6/C04, 12.6"),
     "C15": dict(
         category="model_checking",
         technique="TLA+ removal transformation (Variants!Removals, rendered by TLC) + relational replay: ignore vs "
